@@ -50,7 +50,33 @@ def gen_cases(tier, seed):
     # every scheduling point (and, in the thorough tier, every commit) is a crash point
     cases += [{"id": f"c05-deferred-subplan-{seed}-{i}", "seed": seed * 7001 + 5000 + i, "points": per,
                "scenario": "deferred_subplan", "all_commits": tier != "quick"} for i in range(2 if tier == "quick" else 6)]
+    # a step defined again under the same label with another output, detached a second time while
+    # it runs after the restart (needs the slow hash thread of the restarted director)
+    cases += [{"id": f"c05-redefined-output-{seed}-{i}", "seed": seed * 7001 + 6000 + i, "points": per,
+               "scenario": "redefined_output", "repeat": 2 if tier == "quick" else 6}
+              for i in range(2 if tier == "quick" else 6)]
+    # the same project killed in its first build, edited (the output moves), then restarted
+    cases += [{"id": f"c05-edit-after-kill-{seed}-{i}", "seed": seed * 7001 + 7000 + i, "points": per,
+               "scenario": "edit_after_kill", "repeat": 2 if tier == "quick" else 6}
+              for i in range(2 if tier == "quick" else 6)]
     return cases
+
+
+def directed_redefined_output(hold):
+    """A step D that defines a slow step T; in the build under test T's output has moved, so D
+    defines T again under the same label with another output.  Killed while both run, D runs again
+    after the restart and detaches the running T a second time."""
+    steps = {
+        "D": {"kind": "prog", "inp": ["src/a.txt"], "out": ["out/d.txt"], "defines": ["T"],
+              "hold_defines": hold, "gates_before": 2, "gates_after": 2},
+        "T": {"kind": "prog", "inp": ["src/a.txt"], "out": ["out/t.txt"], "gates_before": 2},
+        "U": {"kind": "do", "salt": "", "inp": ["src/a.txt"], "out": ["out/u.txt"]},
+    }
+    spec = {"sources": {"src/a.txt": "a\n"}, "env": {}, "steps": steps, "order": ["D", "T", "U"],
+            "plans": {".": [["static", ["src/a.txt", "progs/D.json", "progs/T.json"]], ["step", "D"], ["step", "U"]]}}
+    moved = json.loads(json.dumps(spec))
+    moved["steps"]["T"]["out"] = ["out/moved/t.txt"]
+    return spec, [{"spec": moved, "edits": ["move output of T to out/moved/t.txt"]}]
 
 
 def run_child(spec, timeout=180):
@@ -77,7 +103,8 @@ def tree(root="."):
 def run_case(case):
     rng = random.Random(case["seed"])
     counters = dict.fromkeys(["evaluations", "probe_failures", "child_not_killed", "restart_rc_nonzero",
-                              "graph_compared", "files_compared"] + REQUIRED_COUNTERS, 0)
+                              "graph_compared", "files_compared", "restarts_with_slow_hash_threads", "restarts_after_an_edit",
+                              "edited_restarts_compared", "edited_restart_leftovers"] + REQUIRED_COUNTERS, 0)
     violations = []
     classes = set()
     witness = {"case": case["id"]}
@@ -97,11 +124,24 @@ def run_case(case):
         spec["plans"]["sub"].insert(0, ["raw", {"a": "step", "cmd": "do " + json.dumps(slow),
                                                 "inp": ["src/a.txt"], "out": ["out/slow.txt"]}])
         phases = []
+    elif case.get("scenario") == "redefined_output":
+        spec, phases = directed_redefined_output(rng.random() < 0.5)
+    elif case.get("scenario") == "edit_after_kill":
+        spec, later = directed_redefined_output(rng.random() < 0.5)
+        phases = []
+        extra_phase = later[0]
     else:
         spec = gen.gen_project(rng, prob={"optional": 0.4, "hold": 0.4, "hold_defines": 0.6, "defines": 0.4})
         phases = gen.gen_history(rng, spec, nphase=rng.choice([0, 1, 1, 2]))
+    if not case.get("scenario"):
+        # an edit the user may make between the kill and the restart
+        more = gen.gen_history(random.Random(case["seed"] + 17), phases[-1]["spec"] if phases else spec, nphase=1)
+        extra_phase = more[0] if more else None
+    elif case.get("scenario") != "edit_after_kill":
+        extra_phase = None
     env = dict(spec.get("env", {}))
-    witness.update({"spec": spec, "phases": [p["edits"] for p in phases]})
+    witness.update({"spec": spec, "phases": [p["edits"] for p in phases],
+                    "edit_after_kill": extra_phase["edits"] if extra_phase else None})
     counters["projects"] += 1
     cfg = {"njob": rng.choice([1, 2, 3]), "resources": "cpu:2,gpu:2"}
     if case.get("scenario"):
@@ -136,6 +176,26 @@ def run_case(case):
         ref_tree = tree(".")
         ref_graph, ref_globs = H.graph_text(attached_only=False)
         ref_rc = done["rc"]
+        # the uninterrupted build followed by the edit and another build
+        ref2 = None
+        if extra_phase is not None:
+            gen.render(extra_phase["spec"], previous=files)
+            b2 = H.run_build(cfg, ctl=H.Controller("free", 1), env=dict(extra_phase["spec"].get("env", {})), timeout=90)
+            if b2.error is None:
+                ref2 = [{"tree": tree("."), "rc": b2.returncode.value}]
+                # ... and a build from scratch of the edited project: what the killed build had done
+                # lies between the two, and where they differ (a listed C01 finding: what a build
+                # remembers of optional steps) either of them is accepted
+                os.chdir(cwd)
+                os.makedirs("scratch")
+                os.chdir("scratch")
+                gen.render(extra_phase["spec"])
+                b3 = H.run_build(cfg, ctl=H.Controller("free", 1), env=dict(extra_phase["spec"].get("env", {})), timeout=90)
+                if b3.error is None:
+                    ref2.append({"tree": tree("."), "rc": b3.returncode.value})
+                os.chdir(cwd)
+                shutil.rmtree("scratch", ignore_errors=True)
+                os.chdir("ref")
         # which commit numbers fall into startup / build / cleanup
         phase_of_commit = {}
         phase = "startup"
@@ -167,6 +227,7 @@ def run_case(case):
         else:
             points += [{"gate": n} for n in rng.sample(range(1, ngate + 1), min(ngate, max(2, budget // 4)))]
         points += [{"after_write": n} for n in rng.sample(range(1, nwrite + 1), min(nwrite, max(1, budget // 4)))]
+        points = points * case.get("repeat", 1)
         for point in points:
             shutil.rmtree("crash", ignore_errors=True)
             shutil.copytree("base", "crash", symlinks=True)
@@ -201,8 +262,24 @@ def run_case(case):
                 classes.add(repr((kind, ph, min(len(running), 3))))
                 what = f"killed {killed[0]['why']} ({ph}), running: {[r[:50] for r in running]}"
                 # -- restart ---------------------------------------------------------------------------
-                b = H.run_build(cfg, ctl=H.Controller("free", 1), env={**env, "STEPUP_DEBUG": "1"}, timeout=90)
+                # the restarted director may be slow to start its hash threads (an injected delay at
+                # that suspension point): a step and the step that defines it then overlap more
+                edited = ref2 is not None and (case.get("scenario") == "edit_after_kill" or rng.random() < 0.25)
+                env_restart = env
+                if edited:
+                    gen.render(extra_phase["spec"], previous=files)
+                    env_restart = dict(extra_phase["spec"].get("env", {}))
+                    counters["restarts_after_an_edit"] += 1
+                cfg_restart = dict(cfg)
+                if case.get("scenario") in ("redefined_output", "edit_after_kill") or rng.random() < 0.5:
+                    cfg_restart["thread_delay"] = {"p": rng.choice([0.3, 1.0]), "max": 0.03,
+                                                   "seed": rng.randrange(1 << 30)}
+                b = H.run_build(cfg_restart, ctl=H.Controller(rng.choice(["free", "jitter"]), rng.randrange(1 << 30)),
+                                env={**env_restart, "STEPUP_DEBUG": "1"}, timeout=90)
                 counters["evaluations"] += 1
+                counters["restarts_with_slow_hash_threads"] += 1 if b.thread_delays else 0
+                if edited:
+                    what += f", then edited ({extra_phase['edits']})"
                 if b.error is not None:
                     vio("restarted build raised", f"{what}: {b.error[0]}: {str(b.error[1])[-700:]}")
                     continue
@@ -211,6 +288,27 @@ def run_case(case):
                 if errors:
                     vio("restarted build reported an error", f"{what}: {errors[:2]}")
                 rc = b.returncode.value
+                if edited:
+                    # Judged on what holds whatever the user did in between: no internal error (above),
+                    # the same status and the same outputs as the uninterrupted build, the edit and
+                    # another build.  The graph is not compared: what a build remembers about steps
+                    # that no plan defines any more depends on when they were dropped.
+                    same_rc = [r for r in ref2 if r["rc"] == rc]
+                    if not same_rc:
+                        vio("restart after an edit ends with another status than the uninterrupted history",
+                            f"{what}: {b.returncode} versus {[r['rc'] for r in ref2]}")
+                        continue
+                    now = tree(".")
+                    counters["edited_restarts_compared"] += 1
+                    if rc == 0:
+                        # a file of a step that was killed and that the edit drops may stay: StepUp
+                        # only removes what it has recorded.  Counted, not judged.
+                        diffs = [sorted(p for p in r["tree"] if now.get(p) != r["tree"][p]) for r in same_rc]
+                        counters["edited_restart_leftovers"] += sum(1 for p in now if p not in same_rc[0]["tree"])
+                        if all(diffs):
+                            vio("outputs after a restart that follows an edit differ from the uninterrupted history",
+                                f"{what}: {diffs[0][:4]}")
+                    continue
                 if rc != ref_rc:
                     counters["restart_rc_nonzero"] += 1
                     vio("restarted build ends with another status than the uninterrupted build",
